@@ -126,7 +126,7 @@ def _pair(job):
     st.count('pair_states', n_states)
     st.count('nontrivial', max(0, n_states - 1))
     st.notes.append(f'pair p={p} warm={warm}: states={n_states} depth_bound={depth} reached={reached} closed={closed}')
-    if n_states < 50:
+    if n_states < 50 and not st.violations:      # a search cut short by violations is not vacuous
         raise HarnessError('vacuous pair family')
     return st
 
